@@ -295,6 +295,25 @@ def run_setitem(shard, res):
         res.violate(violation('setitem:foreign-keys-accepted', 'setitem with a multivector of different keys accepted', case, 'ValueError', 'accepted'))
     except Exception:
         pass
+    # setitem with a multivector holding the same blades in another key order: refused, or assigned blade by blade - never positionally
+    for ix in index_exprs(shape)[:4]:
+        res.evals += 1
+        X = container(alg, kx, base, shard['cont'])
+        perm = (kx[2], kx[0], kx[1])
+        newvals = -300.0 - np.arange(len(kx) * int(np.prod(shape)), dtype=float).reshape((len(kx),) + shape)
+        Zfull = container(alg, perm, newvals, shard['cont'])
+        sel = (ix if isinstance(ix, tuple) else (ix,))
+        try:
+            X[ix] = Zfull[ix]
+        except Exception:
+            continue
+        got = np.array([np.asarray(v, dtype=float) for v in X.values()])
+        expect = base.copy()
+        for j, k in enumerate(kx):
+            expect[(j,) + sel] = newvals[(perm.index(k),) + sel]
+        if not np.array_equal(got, expect):
+            res.violate(violation('setitem:permuted-keys-positional', f'Algebra{tuple(shard["alg"])} X[{ix!r}] = <multivector with the same blades in another key order> '
+                                  f'({shard["cont"]}, shape {shape}) was accepted and assigned positionally', case, str(expect.tolist())[:300], str(got.tolist())[:300]))
     res.sample({'alg': shard['alg'], 'shape': list(shape), 'container': shard['cont'], 'value_kinds': ['mv', 'scalars', 'arrays']})
 
 
